@@ -189,7 +189,7 @@ func harnessRegistry(ld *Loaded) string {
 // nativeRun compiles the harness files natively into the package under test
 // (go test -overlay; nothing is written into the repository) and runs
 // TestVNReplay on the given replay file or directory.
-func nativeRun(cfg *Config, ld *Loaded, spec *PropSpec, replayPath string, timeout time.Duration) (string, error) {
+func nativeRun(cfg *Config, ld *Loaded, spec *PropSpec, replayPath string, timeout time.Duration, race bool) (string, error) {
 	scratch, err := os.MkdirTemp("", "gose-replay-")
 	if err != nil {
 		return "", err
@@ -226,8 +226,13 @@ func nativeRun(cfg *Config, ld *Loaded, spec *PropSpec, replayPath string, timeo
 	}
 	ctx, cancel := context.WithTimeout(context.Background(), timeout)
 	defer cancel()
-	cmd := exec.CommandContext(ctx, "go", "test", "-tags", "verif", "-vet=off", "-count=1", "-v", "-run", "^TestVNReplay$",
-		"-overlay", ovPath, "-timeout", fmt.Sprintf("%ds", int(timeout.Seconds())-5), "./"+pkgRel(spec.Pkg))
+	goArgs := []string{"test", "-tags", "verif", "-vet=off", "-count=1", "-v", "-run", "^TestVNReplay$",
+		"-overlay", ovPath, "-timeout", fmt.Sprintf("%ds", int(timeout.Seconds())-5)}
+	if race {
+		goArgs = append(goArgs, "-race")
+	}
+	goArgs = append(goArgs, "./"+pkgRel(spec.Pkg))
+	cmd := exec.CommandContext(ctx, "go", goArgs...)
 	cmd.Dir = cfg.Repo
 	cmd.Env = append(goEnv(), "VN_REPLAY="+replayPath)
 	var out bytes.Buffer
@@ -268,7 +273,14 @@ func replayNative(cfg *Config, ld *Loaded, spec *PropSpec, path string) ReplayRe
 	}
 	var rf ReplayFile
 	json.Unmarshal(b, &rf)
-	out, runErr := nativeRun(cfg, ld, spec, path, 150*time.Second)
+	race := spec.RaceReplay && strings.Contains(rf.Label, "shared-state")
+	out, runErr := nativeRun(cfg, ld, spec, path, 150*time.Second, race)
+	if race {
+		if strings.Contains(out, "DATA RACE") {
+			return ReplayResult{Reproduced: true, Mode: "native-race-detector", Detail: "two goroutines running the operation race on the shared object"}
+		}
+		return ReplayResult{Detail: "no data race reported natively: " + lastLines(out, 3)}
+	}
 	mode := "native"
 	if rf.Repeat > 1 {
 		mode = "native-repeated"
@@ -330,7 +342,7 @@ func crossValidate(cfg *Config, ld *Loaded, spec *PropSpec, res *RunResult, dir 
 	if n == 0 {
 		return 0, nil
 	}
-	out, err := nativeRun(cfg, ld, spec, dir, 280*time.Second)
+	out, err := nativeRun(cfg, ld, spec, dir, 280*time.Second, false)
 	rs := parseVNResults(out)
 	var bad []string
 	if len(rs) != n {
